@@ -486,8 +486,9 @@ prop(
     "two layers. (a) one case = one seeded run of the `interleave` world: root instances of all kinds (7 cipher types, block-API states, 19 hash types, 3 Threefish sizes incl. "
     "with_tweak and shared keys) in one thread, calls interleaved by the seeded scheduler at call granularity on a simulated host; afterwards every instance's own operations are "
     "replayed alone in a fresh world on a fresh thread and its transcript (per-instance event-log digest) must be identical; an inner check that fails only when interleaved is a violation too. "
-    "(b) one case = one cold process under a controlled scheduler: the thread workload (2-4 threads released by a barrier; each thread's FIRST call is chosen by the workload PRNG, "
-    "biased to the lazily initialised Groestl entry points so that threads race on the same and on different one-time initialisations; then short mixed histories on private instances) runs in a "
+    "(b) one case = one cold process under a controlled scheduler: the thread workload (2-4 threads released by a barrier; in every workload ALL threads make the same kind of FIRST call - "
+    "the focus kind cycles over 31 operation kinds (19 hash types, 7 ciphers, Threefish, block API) with the workload index, which one Miri seed selects together with the schedule - so that threads race on "
+    "whatever that call initialises lazily in a cold process; then short mixed histories on private instances) runs in a "
     "fresh Miri interpreter per scheduler seed; Miri's seeded scheduler decides every preemption, its data-race/deadlock detector is on, and every result is compared with the "
     "sequential one-at-a-time expectation computed natively. distinct_nontrivial = distinct abstract states of layer (a) (kind of instance, history length class, op kind) + underlying scenarios",
     [
@@ -894,6 +895,22 @@ def run_cross(pid, cross, tier, sd, replay_dir, absorb, violations, known):
             violations.append(tr)
 
 
+EXPECTED_PROBES = {
+    "chacha_stream": ["fault.exhaustion.buffered_tail", "fault.exhaustion.empty_buffer", "fault.exhaustion.lazy_pending", "fault.exhaustion.wide_path_request", "fault.negative_seek",
+                      "fault.seek_exactly_at_limit", "fault.seek_past_limit", "probe.buffered_tail+wide+tail_in_one_apply", "probe.crossed_2^32_block_carry", "probe.crossed_2^64_bytes",
+                      "probe.exact_fit_to_end_of_keystream", "probe.last_block_produced", "probe.mid_block_seek_into_block_0", "probe.position_checked_after_failure", "probe.seek_backwards",
+                      "probe.seek_backwards_across_2^32_block_carry", "probe.successful_apply_after_a_failure", "probe.zero_len_apply_with_pending_lazy_block"],
+    "chacha_block": ["fault.counter_wraps_2^64", "fault.low_word_carry_in_lane_1", "fault.low_word_carry_in_lane_2", "fault.low_word_carry_in_lane_3", "fault.low_word_carry_in_lane_4",
+                     "probe.direct_state_without_set_stream_param", "probe.zero_double_rounds"],
+    "hash_stream": ["probe.blake_exact_fit_finalisation", "probe.blake_extra_block_finalisation", "probe.blake_padding_only_block", "probe.digest_checked_on_clone_or_cloned_original",
+                    "probe.digest_checked_on_reused_instance", "probe.empty_message_finalised", "probe.groestl_le8_bytes_left_padding_block", "probe.jh_aligned_finalisation",
+                    "probe.jh_unaligned_finalisation", "probe.multi_block_piece_with_nonempty_buffer", "probe.piece_fills_buffer_exactly", "probe.skein_pending_full_block_at_finalise"],
+    "mem": ["fault.placement.End", "fault.placement.Mid", "fault.placement.Start"],
+    "counters": ["fault.boundary_crossed_by_update", "fault.boundary_within_2_blocks_of_finalisation", "probe.blocks_compressed_after_jump"],
+    "interleave": ["probe.switch_between_kinds_of_instances", "probe.instance_replayed_in_isolation", "probe.instance_replayed_alone_in_a_cold_process"],
+}
+
+
 def finish(pid, tier, sd, spec, wall, total_runs, total_ops, states, counters, notes, samples, legs_out, violations, known, others, harness_error, extra_cov=None):
     printed = set()
     for kf, f in known:
@@ -926,7 +943,8 @@ def finish(pid, tier, sd, spec, wall, total_runs, total_ops, states, counters, n
         simulated_time="event count: %d operations (no wall-clock time exists in this code base)" % total_ops,
         faults_fired=faults,
         probes_hit=probes,
-        probes_never_hit=[],
+        probes_never_hit=sorted(set(p for leg in spec["legs"] + list(spec.get("cross", [])) for p in EXPECTED_PROBES.get(leg.scenario.split("@")[0], [])
+                                   if counters.get(p, 0) == 0 and not (p == "probe.digest_checked_on_clone_or_cloned_original" and pid == "C18"))),
         operation_counts=opsk,
         notes=notes,
         legs=legs_out,
